@@ -26,7 +26,7 @@ Judged, per database (all expectations are computed here, from the kernel and gc
       the bad entries, and the attributed files are the files gcc opens for the kept entries;
   (4) frame through the command line (`codebasin -R summary`, a sample of the databases): exit 0, the same summary as for
       the database without the bad entries, cbi.log names every non-existent file;
-  (5) the Lean model / spec (`dbload`, existence answered by os.path.exists) through c13.check_db.
+  (5) the Lean model / spec (`dbload`, existence answered by os.path.isfile) through c13.check_db.
 """
 from __future__ import annotations
 
@@ -582,7 +582,7 @@ def check_case(ctx, drv, case, cli=False, count=True, independence=True):
                 if lost:
                     flag(f"cbi.log has no 'non-existent file' warning for {lost[:2]}")
 
-    # ---------------- (5) Lean model and spec on the same database (existence answered by os.path.exists)
+    # ---------------- (5) Lean model and spec on the same database (existence answered by os.path.isfile)
     rep5 = P.check_db(ctx, drv, case, use_gcc=False, count=False, intent_oracle=False, independence=independence)
     report["model"], report["spec"] = rep5.get("model"), rep5.get("spec")
     return report
